@@ -1,6 +1,7 @@
 import CruxVerif.Props.C10
 #print axioms Props.C10.dec_enc
 #print axioms Props.C10.enc_dec
+#print axioms Props.C10.dec_iff
 #print axioms Props.C10.enc_prefix_free
 #print axioms Props.C10.enc_injective
 #print axioms Props.C10.dec_fuel_irrelevant
